@@ -43,6 +43,7 @@ static const uint8_t g_msg[48] = "the quick brown fox jumps over the lazy dog 01
 
 static void ops_setup(int need_sm9)
 {
+	(void)creds_get(1, 0);        /* cached credentials are never built inside a task */
 	if (!g_ops_ready) {
 		sim_ambient_entropy_seed(0x0b5e7);
 		if (sm2_key_generate(&g_k1) != 1 || sm2_key_generate(&g_k2) != 1) die("ops_setup");
